@@ -191,6 +191,20 @@ Definition ignore_list (d : db) (l : list name) : db := fold_left ignore l d.
 (* `for task_name in ignore_tasks: sub_list = [...subtasks_iter...]; for to_ignore in [task_name] + sub_list: ignore` --
    the list of tasks marked, None when a KeyError escapes (then close() is not reached) *)
 Definition to_ignore (tb : table) (args : list name) : option (list name) := named_with_subs tb args.
+(* the sub-task list of each named task is computed when its turn comes: when a KeyError escapes, the
+   names before it were already marked (in memory only) and their lines written *)
+Fixpoint ignored_before_error (tb : table) (l : list name) : list name :=
+  match l with
+  | [] => []
+  | n :: r =>
+      match lookup tb n with
+      | None => []
+      | Some c => match subtasks_iter tb n c with
+                  | Some s => n :: s ++ ignored_before_error tb r
+                  | None => []
+                  end
+      end
+  end.
 Definition ignore_cmd (tb : table) (args : list name) (d : db) : cmd_out :=
   match args with
   | [] => fail_out CNoTask d
@@ -200,7 +214,7 @@ Definition ignore_cmd (tb : table) (args : list name) (d : db) : cmd_out :=
       | None =>
           match to_ignore tb args with
           | Some l => {| co_res := COk; co_log := map (fun n => (n, 0)) l; co_db := ignore_list d l |}
-          | None => fail_out CKeyError d
+          | None => {| co_res := CKeyError; co_log := map (fun n => (n, 0)) (ignored_before_error tb args); co_db := d |}
           end
       end
   end.
@@ -278,6 +292,19 @@ Definition next_run (wake_rank : name -> name -> N) (calc_rank : name -> N)
 
 End Cmds.
 
+(* no command between two runs (`doit run` twice in a row): the DB is what the first run left *)
+Definition no_cmd (d : db) : cmd_out := fail_out COk d.
+
+(* ---- "T, its sub-tasks and every task depending on them": the tasks the mark reaches in the table of
+   the run -- a task marked in the DB, and every task with a task_dep (sub-tasks of a group, implicit
+   dependencies through targets: TaskControl put them there) or calc_dep on a task the mark reaches ---- *)
+Inductive ignored_by (d : db) (rt : table) : name -> Prop :=
+| ib_mark k ct : lookup rt k = Some ct -> status_is_ignore d k = true -> ignored_by d rt k
+| ib_dep k ct x : lookup rt k = Some ct -> In x (c_task_dep ct ++ c_calc_dep ct) -> ignored_by d rt x -> ignored_by d rt k.
+(* ... and a task that has one of those as a setup-task (not reported as ignored when it is up-to-date) *)
+Definition setup_ignored_by (d : db) (rt : table) (k : name) : Prop :=
+  exists ct x, lookup rt k = Some ct /\ In x (c_setup ct) /\ ignored_by d rt x.
+
 (* ---- what a trace says about one task ---- *)
 Definition ev_bit (k : name) (e : Runner.event) : Z :=
   match e with
@@ -306,9 +333,25 @@ Definition fs_of (l : list (file * meta)) : fsys :=
 (* result of a command, its lines and the logical DB content afterwards *)
 Definition observe_db (tasks : list name) (files : list file) (o : cmd_out) : list Z :=
   [cres_z (co_res o)] ++ log_pairs_z (co_log o) ++ [-7] ++ db_z tasks files (co_db o).
-(* ... and what the next run (selection [sel], --continue) does with each task, and its exit code *)
+(* ... and what the next run does with each task, and its exit code.  The run is `doit run` with the
+   options that interact with the saved state: the selection [sel] (names given on the command line),
+   --continue [cont], --always-execute [always].
+   * with --continue (or when the run ends with exit code 0) the bit masks are those of the model run.
+   * without --continue a run that meets a failure stops there, and WHICH tasks were gone through before
+     depends on the iteration order of Python sets (oracles wake_rank / calc_rank, not observed by
+     this check): then every task the real run reported ([obs]: its masks, 0 = nothing reported) must have
+     the mask of the --continue run (per-task outcomes do not depend on the order: C08), and the
+     exit code must be the model's (only DependencyError / UnmetDependency failures occur in these
+     runs -- every action succeeds -- so it is 2 whichever failure came first). *)
+Fixpoint mask_by (m obs : list Z) : list Z :=
+  match m, obs with
+  | x :: m', o :: obs' => (if o =? 0 then 0 else x) :: mask_by m' obs'
+  | _, _ => []
+  end.
 Definition observe_cmd (md5 : N -> N) (tasks : list name) (files : list file)
-           (c : ck) (fs : fsys) (rt : table) (sel : list name) (o : cmd_out) : list Z :=
+           (c : ck) (fs : fsys) (rt : table) (sel : list name) (cont always : bool) (obs : list Z) (o : cmd_out) : list Z :=
   observe_db tasks files o ++ [-7] ++
-  (let '(tr, code) := next_run md5 current (fun _ _ => 0%N) (fun _ => 0%N) c fs (co_db o) rt true false 4000 sel in
-   map (outcome_z tr) tasks ++ [zN code]).
+  (let '(tr, code) := next_run md5 current (fun _ _ => 0%N) (fun _ => 0%N) c fs (co_db o) rt cont always 4000 sel in
+   if cont || N.eqb code 0 then map (outcome_z tr) tasks ++ [zN code]
+   else let '(trc, _) := next_run md5 current (fun _ _ => 0%N) (fun _ => 0%N) c fs (co_db o) rt true always 4000 sel in
+        mask_by (map (outcome_z trc) tasks) obs ++ [zN code]).
